@@ -15,7 +15,57 @@ COMMON_ASSUME = [
     "pinned dependencies (go-cptv, lepton3, go-config, window, juju/ratelimit, yaml) behave as in the module cache",
 ]
 
+FSM_RULE = ("Real MotionProcessor fed by a scripted parser; cases: (1) ~330 configs (fps 1-3, preview 0-2, trigger 0-3, 0<=min<=max<=3) x all motion bit-strings of length 11 (thorough 14); "
+            "(2) same configs x all strings of length 7 (thorough 9) x one disturbance {window closed, disk check fails, file creation fails, bad frame, reset} at every position; "
+            "(3) seeded random scripts (50-2000 events, fps<=9, preview<=5, max<=12s, realistic 3/20 and 10/600 settings) with bad frames, resets and refusals; (4) trigger-position sweep for cap 1..24.")
+FSM_ASSUME = COMMON_ASSUME + ["the driver aims at motion with a toggling hot pixel, but oracles take the observed MotionDetected callbacks as input"]
+FSM_JOB = {"pkg": "motion", "test": "TestVerif_FSM", "shards": (16, 16), "timeout": (300, 2400), "require": ["recordings", "motion_frames_observed"]}
+
 PROPS = {
+    "C01": {
+        "title": "Each motion recording is a gap-free, duplicate-free, in-order run of the stream",
+        "level": "exploration",
+        "rule": FSM_RULE + " Oracle C01: inside every motion-sink recording accepted indices are consecutive, no frame appears in two recordings, recordings do not overlap, "
+                "and a re-trigger within pre-trigger reach starts exactly at previous-last+1. Non-trivial = at least one recording; distinct by (config, sink-trace hash).",
+        "assumptions": FSM_ASSUME,
+        "level_text": "Offline trace checker over the real MotionProcessor's calls on a monitor sink, for all motion bit-strings up to length 11 (thorough 14) on ~330 small configurations, every single-disturbance placement (refused start, bad frame, reset) on shorter strings, a trigger-position sweep for ring capacities 1..24 and long random scripts. Exhaustive small scope + sampling; nothing is proved.",
+        "level_note": "Frame identity is carried in Status.FrameCount by the harness parser; write/stop faults are excluded here by the property's quantifier (C12 covers them).",
+        "technique": "offline trace checker on monitor sinks (exhaustive small scope + random scripts)",
+        "jobs": [dict(FSM_JOB)],
+    },
+    "C02": {
+        "title": "Pre-trigger buffering: recordings start a full preview before the trigger",
+        "level": "exploration",
+        "rule": FSM_RULE + " Oracle C02: first written frame of a recording triggered at accepted index t is max(t-(cap-1), previous-end+1, 0), the writes of the trigger step are consecutive and end with t. "
+                "Non-trivial = at least one recording; distinct by (config, sink-trace hash).",
+        "assumptions": FSM_ASSUME,
+        "level_text": "Closed-form oracle for the first frame of every recording, evaluated on the same exhaustive-small-scope and random workloads as C01 plus a sweep placing the trigger at every position 0..3*cap+2 after start-up and after a previous stop for every cap 1..24 in several (preview, fps, trigger-frames) factorizations.",
+        "level_note": "cap = preview-secs*fps + trigger-frames; the ring is not cleared by resets or bad frames (the property counts accepted frames).",
+        "technique": "closed-form trace oracle on monitor sinks (exhaustive small scope + sweeps)",
+        "jobs": [dict(FSM_JOB)],
+    },
+    "C03": {
+        "title": "Recording length: min-secs past the last motion, never more than max-secs",
+        "level": "exploration",
+        "rule": FSM_RULE + " Oracle C03: a recording triggered at t ends exactly at the first frame e with e-t+1 >= max(1, min(L(e)-t+minF, maxF)), L = latest observed motion callback; cut exactly at a bad frame/reset. "
+                "Non-trivial = at least one recording; distinct by (config, sink-trace hash).",
+        "assumptions": FSM_ASSUME,
+        "level_text": "Declarative end-of-recording formula evaluated against the observed MotionDetected callbacks and the sink trace; exhaustive motion patterns (every offset, the frame at the cap, min=0, max=min) for min,max<=3s x fps<=3, plus random scripts with realistic settings (3/20/9, 10/600/9).",
+        "level_note": "Motion bits are the observed listener callbacks, so the oracle is decoupled from the detector.",
+        "technique": "declarative trace oracle on monitor sinks + listener callbacks",
+        "jobs": [dict(FSM_JOB)],
+    },
+    "C04": {
+        "title": "A recording starts iff motion persisted, the window is open and storage is OK",
+        "level": "exploration",
+        "rule": FSM_RULE + " Oracle C04 (online): successful StartRecording at accepted frame i <=> idle and motion(i) and run(i) >= trigger-frames and window open and CheckCanRecord ok and StartRecording ok. "
+                "A second job drives the real window.Window with a virtual clock across boundaries/midnight. Non-trivial = at least one recording or refused start; distinct by (config, trace hash).",
+        "assumptions": FSM_ASSUME + ["window boundaries: start inclusive, stop exclusive; self-tested against window.Active() for all 1440 minutes +-1ns"],
+        "level_text": "Start-iff monitor over scripted gate outcomes (window via the real window.Window with an injected clock, disk check and file creation via the monitor sink) for all motion strings x every single refusal placement, random multi-refusal scripts, and a dedicated window-clock job (absolute windows incl. midnight wrap and exact boundary instants).",
+        "level_note": "Sunrise/sunset-relative windows are exercised only through Active()'s boolean; the CPTVFileRecorder disk check is covered by the pipeline job.",
+        "technique": "online start-iff monitor with scripted gates and injected window clock",
+        "jobs": [dict(FSM_JOB)],
+    },
     "C19": {
         "title": "Frame ring buffer returns exactly the retained history, oldest first",
         "level": "exploration",
